@@ -831,6 +831,10 @@ func (c *Conn) flush() error {
 	}
 
 	if len(c.writeList) == 0 {
+		// nothing to flush (the first event of a dialed connection that
+		// was connected at once): the write event is not needed, and the
+		// flag must say so or a later Write would not ask for it again.
+		c.resetRead()
 		return nil
 	}
 
